@@ -93,10 +93,11 @@ def tlc_mc(module, cfg=None, workers=4, timeout=1500, extra=(), env=None, simula
     return res
 
 
-def require_coverage(res, actions=None):
-    """Vacuity guard: every (listed) action of the model must have been taken."""
+def require_coverage(res, actions=None, disabled=()):
+    """Vacuity guard: every (listed) action of the model must have been taken
+    (except those a configuration switches off on purpose)."""
     cov = res['coverage']
-    bad = [a for a, n in cov.items() if n == 0 and (actions is None or a in actions)]
+    bad = [a for a, n in cov.items() if n == 0 and (actions is None or a in actions) and a not in disabled]
     if actions:
         bad += [a for a in actions if a not in cov]
     if bad:
@@ -273,7 +274,7 @@ class Check:
         self._distinct = set()
 
     # -- model checking part
-    def mc(self, module, cfg=None, must_fail=False, actions=None, **kw):
+    def mc(self, module, cfg=None, must_fail=False, actions=None, disabled=(), **kw):
         r = tlc_mc(module, cfg, **kw)
         entry = {'model': cfg or module, 'distinct_states': r.get('distinct'), 'generated': r.get('generated'),
                  'wall_s': round(r['wall_s'], 1), 'actions': r['coverage']}
@@ -290,7 +291,7 @@ class Check:
                 f.write(r['out'])
             self.violation('model:' + (cfg or module), 'TLC reports a violation in model %s' % (cfg or module), rd)
             return r
-        require_coverage(r, actions)
+        require_coverage(r, actions, disabled)
         self.cov['states'] += r.get('distinct', 0)
         self.cov['transitions'] += r.get('generated', 0)
         return r
